@@ -76,6 +76,13 @@ def check_case(ctx, v, params, kind, delivery, origin):
 
 def run_shard(ctx):
     conf = TIERS[ctx.tier]
+    if ctx.shard == ctx.nshards - 1:
+        # the repository's own 579 tests, with the passive tokenizer monitor (INV + SEG) riding on every tokenize() call
+        from .. import repotests
+
+        st = repotests.run(ctx, "tokenizer")  # every INV / SEG finding of the passive tokenizer monitor
+        if st:
+            ctx.evaluations += st.get("tokenize_calls", 0)
     for v, params, kind, delivery, origin in T.iter_cases(ctx, conf, init_variants=False):
         check_case(ctx, v, params, kind, delivery, origin)
 
@@ -89,7 +96,7 @@ def inconclusive(merged, tier):
     c = merged["counters"]
     return [f"monitor never observed {k}" for k in
             ("tokens_observed", "tokens_expected", "cases_with_token_ending_at_end_of_stream",
-             "cases_with_cut_and_continuation", "cases_exhaustive", "cases_random") if c.get(k, 0) == 0]
+             "cases_with_cut_and_continuation", "cases_exhaustive", "cases_random", "repo_tests_tokenize_calls", "repo_tests_checked_c04") if c.get(k, 0) == 0]
 
 
 def evidence_extra(merged, tier):
